@@ -1,5 +1,6 @@
 import PwVerif.Proofs.Exec
 import PwVerif.Proofs.ExecFin
+import PwVerif.Proofs.ExecFine
 /-!
 # C01 — Automatic DAG execution is complete, ordered and correct under every schedule
 
@@ -13,8 +14,9 @@ Quantification: every wired DAG `d` (`WF d`, acyclic by a ranking), every execut
 (`d.onExec`), every order of `ran` connections and starting nodes (`d.down`, `d.starters`), every
 schedule = every list of enabled actions `start | deliver | complete k | exit` (`runActs`), for both
 the pinned and the repaired error-handling configuration (`cfg`). No faults here (`NoFaults`); C06
-treats faults. Granularity: a completion callback is one atomic action (see `Exec.fine` in DESIGN.md
-for the finer interleaving, which is NOT claimed here).
+treats faults. Granularity: in the first part a completion callback is one atomic action; the second
+part (`C01_fine_*`) splits the callback of an executor-run child into its two bookkeeping calls on the
+parent and lets the parent's loop test fall between them (`Model/ExecFine.lean`).
 -/
 namespace PwVerif.C01
 open PwVerif PwVerif.Exec
@@ -146,6 +148,119 @@ def exActs : List Act :=
 example : (runActs Cfg.pinned exF.toDag (init exF.toDag) exActs).map (fun s => (s.phase, s.execLog, s.doneLog))
     = some (.exited, [0, 2, 1, 3], [0, 2, 1, 3]) := by decide
 
+/-! ## The finer interleaving: a completion callback is two actions
+
+`FReach fc cfg d f`: `f` is reachable by ANY list of fine actions `start | deliver | exit | cbFirst k |
+cbSecond k`. `fc.emitFirst` is the order of the two calls `register_child_emitting` /
+`register_child_finished` in `Node._run_finally` (repaired: emitting first). -/
+open PwVerif.ExecFine
+
+def FReach (fc : FCfg) (cfg : Cfg) (d : Dag) (f : F) : Prop :=
+  ∃ acts, runF cfg fc d (initF d) acts = some f
+
+/-- the statement "when the loop has been left, every child has executed exactly once, nothing is
+half-way and nothing was fired outside the run" for a given order of the two calls -/
+def FineOnceStatement (fc : FCfg) : Prop :=
+  ∀ (cfg : Cfg) (d : Dag), WF d → (∃ rank : Nat → Nat, ∀ i j, j ∈ d.deps i → rank j < rank i) →
+    NoFaults d → ∀ f, FReach fc cfg d f → f.core.phase = .exited →
+      (∀ i, d.member i → f.core.calls i = 1 ∧ f.core.st i = .done) ∧ f.mid = [] ∧ f.late = []
+
+/-- REFINEMENT: with the repaired order the core of every fine-reachable state is reachable in the
+coarse model — all theorems above therefore hold at every moment of every fine schedule -/
+theorem C01_fine_refines {cfg d f} (h : FReach FCfg.repaired cfg d f) : Reach cfg d f.core := by
+  obtain ⟨acts, ha⟩ := h
+  exact runF_sim cfg d acts (initF d) f (init d) [] rfl ha
+
+theorem C01_fine_order {cfg d f} (wf : WF d) (h : FReach FCfg.repaired cfg d f) (i j : Nat)
+    (hi : f.core.st i ≠ .idle) (hj : j ∈ d.deps i) : f.core.st j = .done :=
+  C01_order wf (C01_fine_refines h) i j hi hj
+
+theorem C01_fine_at_most_once {cfg d f} (wf : WF d) (h : FReach FCfg.repaired cfg d f) (i : Nat) :
+    f.core.calls i ≤ 1 :=
+  C01_at_most_once wf (C01_fine_refines h) i
+
+/-- the full statement holds for the repaired order -/
+theorem C01_fine_once : FineOnceStatement FCfg.repaired := by
+  intro cfg d wf ⟨rank, hrank⟩ hnf f h hex
+  refine ⟨fun i hm => C01_once wf rank hrank hnf (C01_fine_refines h) hex i hm, ?_, ?_⟩
+  · obtain ⟨acts, ha⟩ := h
+    exact runF_midInv cfg d acts (initF d) f (by intro hp; simp [initF, init] at hp) ha hex
+  · obtain ⟨acts, ha⟩ := h
+    exact runF_late cfg d acts (initF d) f ha
+
+theorem C01_fine_value {cfg d f} (wf : WF d) (rank : Nat → Nat)
+    (hrank : ∀ i j, j ∈ d.deps i → rank j < rank i) (hnf : NoFaults d)
+    (h : FReach FCfg.repaired cfg d f) (hex : f.core.phase = .exited) (i : Nat) (hm : d.member i) :
+    f.core.out i = .app i (headArgs d f.core.out i) :=
+  C01_value wf rank hrank hnf (C01_fine_refines h) hex i hm
+
+/-- nothing running, nothing queued, no callback half-way when the loop has been left -/
+theorem C01_fine_clean {cfg d f} (wf : WF d) (h : FReach FCfg.repaired cfg d f)
+    (hex : f.core.phase = .exited) :
+    visRunning FCfg.repaired f = [] ∧ f.core.queue = [] ∧ ∀ i, f.core.st i ≠ .out := by
+  obtain ⟨hr, hq, hout⟩ := C01_clean wf (C01_fine_refines h) hex
+  obtain ⟨acts, ha⟩ := h
+  have hm := runF_midInv cfg d acts (initF d) f (by intro hp; simp [initF, init] at hp) ha hex
+  exact ⟨by simp [visRunning, FCfg.repaired, hr, hm], hq, hout⟩
+
+theorem C01_fine_progress {cfg d f} (wf : WF d) (h : FReach FCfg.repaired cfg d f) (r : List Nat)
+    (hph : f.core.phase = .run r) : ∃ a f', stepF cfg FCfg.repaired d f a = some f' :=
+  progressF cfg d f (reach_inv wf (C01_fine_refines h)) r hph
+
+/-- every fine schedule is finite: at most twice the coarse bound -/
+theorem C01_fine_terminates {cfg d f} (wf : WF d) (nodes : List Nat) (hn : nodes.Nodup)
+    (hcover : ∀ i, d.member i → i ∈ nodes) (acts : List ActF)
+    (hr : runF cfg FCfg.repaired d (initF d) acts = some f) :
+    acts.length ≤ 2 * (1 + (nodes.map (fun i => 2 + (d.down i).length)).sum) := by
+  obtain ⟨acts', hr', hlen⟩ := runF_sim_len cfg d acts (initF d) f (init d) [] rfl hr
+  have := C01_terminates wf nodes hn hcover acts' hr'
+  simp [initF] at hlen
+  omega
+
+/-- with atomic callbacks either order IS the coarse model: the first part of this file is exactly
+the fine model restricted to schedules in which nothing happens between the two calls -/
+theorem C01_fine_atomic (cfg : Cfg) (fc : FCfg) (d : Dag) (acts : List Act) :
+    runF cfg fc d (initF d) (expand acts)
+      = (runActs cfg d (init d) acts).map fun s => { core := s, mid := [], late := [] } :=
+  runF_expand cfg fc d acts (init d)
+
+/-- PINNED ORDER, machine-checked counterexample: chain `0 → 1`, node 0 on an executor. Its callback
+removes it from `running_children`; the parent's loop sees nothing running and nothing queued and
+returns; node 1 has never run (`calls 1 = 0`); the `ran` of node 0 is fired late, outside the run. -/
+def chainF : FinDag :=
+  { n := 2, slots := [[], [[0]]], down := [[1], []], starters := [0], onExec := [true, false],
+    fails := [], rank := [0, 1] }
+
+theorem C01_fine_pinned_witness :
+    (runF Cfg.repaired FCfg.pinned chainF.toDag (initF chainF.toDag)
+        [.start, .cbFirst 0, .exit, .cbSecond 0]).map
+      (fun f => (f.core.phase, f.core.calls 1, f.core.st 1, f.late)) = some (.exited, 0, .idle, [0]) := by
+  decide
+
+theorem C01_fine_pinned_not_once : ¬ FineOnceStatement FCfg.pinned := by
+  intro h
+  have hwf : WF chainF.toDag := (FinDag.check_sound chainF (by decide)).1
+  have hreach : FReach FCfg.pinned Cfg.repaired chainF.toDag
+      ((runF Cfg.repaired FCfg.pinned chainF.toDag (initF chainF.toDag)
+        [.start, .cbFirst 0, .exit]).get (by decide)) :=
+    ⟨[.start, .cbFirst 0, .exit], by simp⟩
+  have := (h Cfg.repaired chainF.toDag hwf
+    ⟨chainF.rankF, (FinDag.check_sound chainF (by decide)).2⟩
+    (by intro i; simp [chainF, FinDag.toDag]) _ hreach (by decide)).1 1
+    (Or.inr (by decide))
+  revert this
+  decide
+
+/-- the same schedule under the repaired order is not even enabled: the loop cannot be left while
+the callback is half-way -/
+example : runF Cfg.repaired FCfg.repaired chainF.toDag (initF chainF.toDag)
+    [.start, .cbFirst 0, .exit] = none := by decide
+
+example : (runF Cfg.repaired FCfg.repaired chainF.toDag (initF chainF.toDag)
+    [.start, .cbFirst 0, .deliver, .cbSecond 0, .exit]).map
+      (fun f => (f.core.phase, f.core.calls 1, f.core.st 1, f.mid, f.late))
+    = some (.exited, 1, .done, [], []) := by decide
+
 end PwVerif.C01
 
 #print axioms PwVerif.C01.C01_order
@@ -157,3 +272,14 @@ end PwVerif.C01
 #print axioms PwVerif.C01.C01_no_error
 #print axioms PwVerif.C01.C01_progress
 #print axioms PwVerif.C01.C01_terminates
+#print axioms PwVerif.C01.C01_fine_refines
+#print axioms PwVerif.C01.C01_fine_order
+#print axioms PwVerif.C01.C01_fine_at_most_once
+#print axioms PwVerif.C01.C01_fine_once
+#print axioms PwVerif.C01.C01_fine_value
+#print axioms PwVerif.C01.C01_fine_clean
+#print axioms PwVerif.C01.C01_fine_progress
+#print axioms PwVerif.C01.C01_fine_terminates
+#print axioms PwVerif.C01.C01_fine_atomic
+#print axioms PwVerif.C01.C01_fine_pinned_witness
+#print axioms PwVerif.C01.C01_fine_pinned_not_once
